@@ -90,9 +90,59 @@ Example C19_overridden_premises_inhabited :
   In ("_interp._vinterp2d._vinterp2d", "boundscheck", "True") flags /\ is_kernel "_interp._vinterp2d._vinterp2d" = true.
 Proof. vm_compute. split; [|reflexivity]. repeat (first [left; reflexivity | right]). Qed.
 
+(* The declared widths: the explicit signature of every jitted function, as extracted from the source, is EXACTLY this
+   table ("" = no explicit signature: Numba infers the types from the call).  32-bit integers (i4) occur only as grid
+   indices, node counts, sweep counts, direction signs and step budgets - never as the result of a float computation - and
+   every array of data is f8.  A new or changed signature (e.g. a helper returning `i4` from `int(length / stepsize)`)
+   changes this table and is then examined by the compiled-vs-interpreted comparison. *)
+Theorem C19_explicit_signatures_are_exactly :
+  map (fun t => (fst (fst t), snd t)) (filter (fun t => String.eqb (snd (fst t)) "signature") flags) =
+  [("_common.norm2d", "");
+   ("_common.norm3d", "");
+   ("_common.dist2d", "");
+   ("_common.dist3d", "");
+   ("_interp._interp2d._interp2d", "f8(f8[:], f8[:], f8[:, :], f8, f8, f8)");
+   ("_interp._interp2d._interp2d_vectorized", "");
+   ("_interp._interp2d.interp2d", "");
+   ("_interp._interp3d._interp3d", "f8(f8[:], f8[:], f8[:], f8[:, :, :], f8, f8, f8, f8)");
+   ("_interp._interp3d._interp3d_vectorized", "");
+   ("_interp._interp3d.interp3d", "");
+   ("_interp._vinterp2d._vinterp2d", "f8(f8[:], f8[:], f8[:, :], f8, f8, f8, f8, f8, f8)");
+   ("_interp._vinterp2d._vinterp2d_vectorized", "");
+   ("_interp._vinterp2d.vinterp2d", "");
+   ("_interp._vinterp3d._vinterp3d", "f8(f8[:], f8[:], f8[:], f8[:, :, :], f8, f8, f8, f8, f8, f8, f8, f8)");
+   ("_interp._vinterp3d._vinterp3d_vectorized", "");
+   ("_interp._vinterp3d.vinterp3d", "");
+   ("_fteik._common.shrink", "f8(f8[:], f8[:], f8[:], f8[:])");
+   ("_fteik._fteik2d.t_ana", "f8(i4, i4, f8, f8, f8, f8, f8)");
+   ("_fteik._fteik2d.t_anad", "UniTuple(f8, 3)(i4, i4, f8, f8, f8, f8, f8)");
+   ("_fteik._fteik2d.delta", "f8(f8, f8, f8, f8, f8, f8, f8, f8, f8, f8, f8, f8, f8, i4, i4)");
+   ("_fteik._fteik2d.sweep", "void(f8[:, :], i4[:, :, :], f8[:, :], UniTuple(f8, 6), f8, f8, f8, f8, f8, i4, i4, i4, i4, i4, i4, i4, i4, b1)");
+   ("_fteik._fteik2d.sweep2d", "void(f8[:, :], i4[:, :, :], f8[:, :], f8, f8, f8, f8, f8, f8, f8, i4, i4, b1)");
+   ("_fteik._fteik2d.fteik2d", "Tuple((f8[:, :], f8[:, :, :], f8))(f8[:, :], f8, f8, f8, f8, i4, b1)");
+   ("_fteik._fteik2d.fteik2d_vectorized", "Tuple((f8[:, :, :], f8[:, :, :, :], f8[:]))(f8[:, :], f8, f8, f8[:], f8[:], i4, b1)");
+   ("_fteik._fteik2d.solve2d", "");
+   ("_fteik._fteik3d.t_ana", "f8(i4, i4, i4, f8, f8, f8, f8, f8, f8, f8)");
+   ("_fteik._fteik3d.t_anad", "UniTuple(f8, 4)(i4, i4, i4, f8, f8, f8, f8, f8, f8, f8)");
+   ("_fteik._fteik3d.sweep", "void(f8[:, :, :], i4[:, :, :, :], f8[:, :, :], UniTuple(f8, 10), i4, i4, i4, i4, i4, i4, i4, i4, i4, i4, i4, i4, b1)");
+   ("_fteik._fteik3d.sweep3d", "void(f8[:, :, :], i4[:, :, :, :], f8[:, :, :], f8, f8, f8, i4, i4, i4, b1)");
+   ("_fteik._fteik3d.fteik3d", "Tuple((f8[:, :, :], f8[:, :, :, :], f8))(f8[:, :, :], f8, f8, f8, f8, f8, f8, i4, b1)");
+   ("_fteik._fteik3d.fteik3d_vectorized", "Tuple((f8[:, :, :, :], f8[:, :, :, :, :], f8[:]))(f8[:, :, :], f8, f8, f8, f8[:], f8[:], f8[:], i4, b1)");
+   ("_fteik._fteik3d.solve3d", "");
+   ("_fteik._ray2d._ray2d_core", "Tuple((f8[:, :], i4))(f8[:], f8[:], f8[:, :], f8[:, :], f8, f8, f8, f8, f8, i4, b1)");
+   ("_fteik._ray2d._ray2d", "Tuple((f8[:, :], i4))(f8[:], f8[:], f8[:, :], f8[:, :], f8, f8, f8, f8, f8, i4, b1)");
+   ("_fteik._ray2d._ray2d_vectorized", "");
+   ("_fteik._ray2d.ray2d", "");
+   ("_fteik._ray3d._ray3d_core", "Tuple((f8[:, :], i4))(f8[:], f8[:], f8[:], f8[:, :, :], f8[:, :, :], f8[:, :, :], f8, f8, f8, f8, f8, f8, f8, i4, b1)");
+   ("_fteik._ray3d._ray3d", "Tuple((f8[:, :], i4))(f8[:], f8[:], f8[:], f8[:, :, :], f8[:, :, :], f8[:, :, :], f8, f8, f8, f8, f8, f8, f8, i4, b1)");
+   ("_fteik._ray3d._ray3d_vectorized", "");
+   ("_fteik._ray3d.ray3d", "")].
+Proof. vm_compute. reflexivity. Qed.
+
 Print Assumptions C19_fastmath_set_is_the_documented_one.
 Print Assumptions C19_default_keys_are_exactly.
 Print Assumptions C19_requested_boundscheck_reaches_numba.
 Print Assumptions C19_no_kernel_option_is_overridden.
 Print Assumptions C19_default_options.
 Print Assumptions C19_parallel_kernels.
+Print Assumptions C19_explicit_signatures_are_exactly.
